@@ -43,6 +43,12 @@ type ReplayFile struct {
 	Seed      uint64     `json:"seed"`
 	Run       int        `json:"run"`
 	Variant   string     `json:"variant"` // e.g. "verif", "verif,vectors", "+race"
+	// From, when set, makes this a SEQUENCE replay: the seeded runs From..Run are
+	// executed one after the other in one process and the result of the last one
+	// is reported. Used when a violation depends on process-wide state left behind
+	// by earlier runs (e.g. a corrupted package-level sentinel), so that the trace
+	// of the failing run alone does not reproduce it.
+	From      *int       `json:"from,omitempty"`
 	Trace     []int      `json:"trace"`
 	Violation *Violation `json:"violation"`
 	Events    []string   `json:"events,omitempty"`
@@ -109,6 +115,22 @@ func main() {
 		if err := json.Unmarshal(b, &rf); err != nil {
 			fmt.Fprintln(os.Stderr, err)
 			os.Exit(2)
+		}
+		if rf.From != nil {
+			var r *RunCtx
+			t0 := time.Now()
+			for i := *rf.From; i <= rf.Run; i++ {
+				rs := mixSeed(rf.Seed, rf.Property, i)
+				ch := newChooser(rs)
+				ch.keep = i == rf.Run
+				emit(map[string]int{"start": i})
+				r = executeRun(rf.Property, rf.Tier, i, rs, ch, *tsan, *verbose)
+				if i < rf.Run {
+					emit(result(r, false, false, 0))
+				}
+			}
+			emit(result(r, true, true, time.Since(t0).Milliseconds()))
+			return
 		}
 		ch := newReplayChooser(rf.Trace)
 		ch.keep = true
